@@ -129,14 +129,33 @@ def _shape(ctx):
                                   line=node.lineno, engine='E4')
         ctx.ob(rule, 'no string literal of jsondumper contains JSON syntax (%d literals scanned)' % n_lit, True, FD)
         # multi-grid wrapping in dumper.dump
-        dd = m.func('dumper', 'dump')
-        rets = [norm(n.value) for n in walk_no_nested(dd) if isinstance(n, ast.Return)]
-        if "'[%s]' % ','.join(map(_dump, grids))" in rets:
-            ctx.ob(rule, 'a list of grids is wrapped as a JSON array of grid documents', True, 'hszinc/dumper.py:%d' % dd.lineno)
-        else:
-            ctx.violation(rule, 'hszinc/dumper.py::dump', '; '.join(rets), 'dump([g1, g2], MODE_JSON) is not a JSON array',
-                          'multi-grid JSON is not "[" + ",".join(documents) + "]"', file='hszinc/dumper.py',
-                          line=dd.lineno, engine='E9')
+        from . import _dump
+        try:
+            r = _dump.document_shaping(m)
+            forms = r['json_multi']
+            dd = m.func('dumper', 'dump')
+            lenconds = [c for f in forms for c in r['extra'].get(('json_multi', f), []) if 'len(' in c[0]]
+            if forms == {'JARR'} and not lenconds:
+                ctx.ob(rule, 'a list of grids is wrapped as a JSON array of grid documents (whatever its length)', True,
+                       'hszinc/dumper.py:%d' % dd.lineno)
+            elif 'ELEM' in forms or 'ONE' in forms:
+                f = 'ELEM' if 'ELEM' in forms else 'ONE'
+                node = r['nodes'][('json_multi', f)]
+                ctx.violation(rule, 'hszinc/dumper.py::dump', norm(node),
+                              'dump([g], MODE_JSON) with a one-element list returns the bare grid object {...} instead of the '
+                              'array [{...}] (condition: %s)' % (r['extra'].get(('json_multi', f)) or 'none'),
+                              'a list of grids is not always written as a JSON array', file='hszinc/dumper.py',
+                              line=node.lineno, engine='E6')
+            elif any(f.startswith(('WRAP:', 'JOIN:')) for f in forms):
+                f = [x for x in forms if x.startswith(('WRAP:', 'JOIN:'))][0]
+                node = r['nodes'][('json_multi', f)]
+                ctx.violation(rule, 'hszinc/dumper.py::dump', norm(node), 'dump([g1, g2], MODE_JSON) is not a JSON array',
+                              'multi-grid JSON is assembled as %s, not "[" + ",".join(documents) + "]"' % f,
+                              file='hszinc/dumper.py', line=node.lineno, engine='E6')
+            else:
+                ctx.error(rule, 'dump(): JSON multi-grid result has forms %s (conditions %s); cannot decide' % (sorted(forms), lenconds))
+        except (AnalysisError, Unsupported) as e:
+            ctx.error(rule, 'dump(): %s' % e)
         # D3 reserved keys
         dm = m.func('jsondumper', 'dump_meta')
         stmts = [norm(x) for x in body_wo_doc(dm)]
